@@ -58,7 +58,7 @@ def prep_template(t):
 def prep_rule(r):
     out = {}
     for k, v in r.items():
-        if k == "Variable":
+        if k in ("Variable", "NumericEqualsPath"):
             out[k] = path_obj(v)
         elif k in ("And", "Or"):
             out[k] = [prep_rule(x) for x in v]
@@ -274,6 +274,13 @@ def directed_programs():
                                                    "ItemSelector": {"a.$": "$.a", "v.$": "$$.Map.Item.Value"}, "ItemProcessor": inner, "End": True}}})
     # the start state's ResultPath and the execution input
     out.append({"StartAt": "S", "States": {"S": P(ResultPath="$.x", Next="K"), "K": T("f", Parameters={"p.$": "$$.Execution.Input"}, End=True)}})
+    # ... also when the start state's result is placed INSIDE an existing container of the input (a shallow copy of the
+    # execution input would share that container)
+    out.append({"StartAt": "S", "States": {"S": P(Result=True, ResultPath="$.a.r", Next="K"), "K": T("f", Parameters={"p.$": "$$.Execution.Input", "now.$": "$"}, End=True)}})
+    # a Choice with an InputPath and a variable-to-variable comparison: both sides are read from the EFFECTIVE input
+    out.append({"StartAt": "S0", "States": {"S0": P(Result={"x": 1, "v": 2, "a": {"x": 5, "v": 5}}, Next="C"),
+                                            "C": {"Type": "Choice", "InputPath": "$.a", "Choices": [{"Variable": "$.x", "NumericEqualsPath": "$.v", "Next": "Y"}], "Default": "N"},
+                                            "Y": P(Result="yes", End=True), "N": P(Result="no", End=True)}})
     # a sub-tree of the input placed inside itself
     out.append({"StartAt": "S", "States": {"S": P(InputPath="$.a", ResultPath="$.a.r", Next="Z"), "Z": P(End=True)}})
     out.append({"StartAt": "S", "States": {"S": P(Parameters={"p.$": "$.a"}, ResultPath="$.a.r", End=True)}})
